@@ -20,12 +20,14 @@ Drop(f, k) == [x \in (DOMAIN f) \ {k} |-> f[x]]
 EmptyFn == [x \in {} |-> 0]
 
 \* key = <<client, resource, query>> ; obs[key] = [tok, last (last Observe value sent, -1 none), non (NON in a row), state (last state sent)]
-InitObs(mode) == [obs |-> EmptyFn, mode |-> mode, state |-> EmptyFn, gone |-> {}]
+InitObs(mode) == [obs |-> EmptyFn, mode |-> mode, state |-> EmptyFn, gone |-> {}, maybe |-> {}]
+\* maybe: observations whose fate the statement leaves open (a Confirmable notification sent under a token that a re-registration has since
+\* replaced was never acknowledged): neither a further notification nor its absence is judged until the client registers or cancels again
 
 Registered(s, k) == k \in DOMAIN s.obs
 \* registration (also re-registration: replaces, never duplicates)
-Register_do(s, k, tok, val, st) == [s EXCEPT !.obs = Put(@, k, [tok |-> tok, last |-> val, non |-> 0, state |-> st, reg |-> TRUE])]     \* reg: 'last' is still the value of the registration response
-Deregister_do(s, k) == [s EXCEPT !.obs = Drop(@, k)]
+Register_do(s, k, tok, val, st) == [s EXCEPT !.obs = Put(@, k, [tok |-> tok, last |-> val, non |-> 0, state |-> st, reg |-> TRUE]), !.maybe = @ \ {k}]     \* reg: 'last' is still the value of the registration response
+Deregister_do(s, k) == [s EXCEPT !.obs = Drop(@, k), !.maybe = @ \ {k}]
 KeysOfTok(s, c, tok) == {k \in DOMAIN s.obs : k[1] = c /\ s.obs[k].tok = tok}
 KeysOfRes(s, r) == {k \in DOMAIN s.obs : k[2] = r}
 
